@@ -147,6 +147,14 @@ def in_clean_region(s):
     return False
 
 
+def raw_newline_after_escaped_backslash(s):
+    u = esc_units(s)
+    for a, b in zip(u, u[1:]):
+        if (a[0] == 'pair' or (a[0] == 'hex' and a[2] == 0x5C)) and b[0] == 'chr' and b[1] in '\n\r\f':
+            return True
+    return False
+
+
 def spec_value(typ, src):
     if typ in ('STRING', 'INVALID'):
         return spec_string_value(src)
@@ -585,6 +593,7 @@ class C05(Check):
             self.corr_helpers(ctx)
         except (ValueError, TimeLimit) as e:
             ctx.notes['helpers_skipped'] = repr(e)
+        self.corr_specs(ctx)
         self.oracle_classify(ctx)
         self.oracle_completion(ctx)
         self.oracle_errors(ctx)
@@ -696,6 +705,40 @@ class C05(Check):
                 ctx.case(key=(kind, s), nontrivial='\\' in s, kind='helper:normalize')
             if m is not None and m != got:
                 ctx.disagree(kind, {'text': enc(s), 'repr': repr(s)}, got, m)
+
+    # -- (4) specification functions: the oracle's Python specs vs the Lean specs the theorems are stated against ---
+    def corr_specs(self, ctx):
+        rng = ctx.sub_rng('specs')
+        alpha = list('\\\\\\0123456789abcdefABCDEFgG \t\r\n\f"x\'') + ['\r\n', '\\5c', '\\5C ', '\\110000', '\\10ffff',
+                                                                        '\\0', '\\d800', 'é', '\\a ', '\\d', '\\c ',
+                                                                        '\\\r', '\\\n', '\\\\']
+        lines, cases = [], []
+        for _ in range(ctx.n(6000, 100000)):
+            s = ''.join(rng.choice(alpha) for _ in range(rng.randint(0, 10)))
+            for f in ('unescape', 'stripcont', 'strval', 'safe', 'lc'):
+                lines.append('spec %s %s' % (f, enc(s)))
+                cases.append((f, s))
+        out = ctx.driver(lines) if ctx.model_ok else []
+        for (f, s), m in zip(cases, out):
+            if f == 'unescape':
+                want = 'OK ' + enc(spec_unescape(s))
+            elif f == 'stripcont':
+                want = 'OK ' + enc(spec_clean(s))
+            elif f == 'strval':
+                want = 'OK ' + enc(spec_string_value(s))
+            elif f == 'lc':
+                want = '%d %d' % spec_linecol(s, len(s))
+            else:
+                # the Lean guard is stated for arbitrary texts: besides the two shapes of the finding it also
+                # rejects a RAW newline directly after an escaped backslash (impossible inside a STRING token)
+                want = '0' if (in_clean_region(s) or raw_newline_after_escaped_backslash(s)) else '1'
+                # and where the guard holds the two readings agree (the theorem, observed)
+                if m == '1' and spec_string_value(s) != spec_value_two_pass('STRING', s):
+                    ctx.disagree('safe => one-pass = two-pass', {'text': enc(s)}, 'differ', 'guard holds')
+            ctx.case(key=('spec', f, s), nontrivial='\\' in s, kind='spec:' + f)
+            if m != want:
+                ctx.disagree('specification function %s (python oracle vs Lean)' % f, {'text': enc(s), 'repr': repr(s)},
+                             want, m)
 
     # -- texts ----------------------------------------------------------------------------------------
     def gen_texts(self, ctx, d):
